@@ -2,7 +2,7 @@
 namespace Pycoin
 
 inductive PyErr
-  | indexError | valueError | assertionError | structError | typeError | zeroDivisionError
+  | indexError | valueError | assertionError | structError | typeError | zeroDivisionError | keyError | attributeError
   deriving DecidableEq, Repr
 
 def PyErr.tag : PyErr → String
@@ -12,6 +12,8 @@ def PyErr.tag : PyErr → String
   | .structError => "error"          -- struct.error's class name
   | .typeError => "TypeError"
   | .zeroDivisionError => "ZeroDivisionError"
+  | .keyError => "KeyError"
+  | .attributeError => "AttributeError"
 
 instance {ε α} [DecidableEq ε] [DecidableEq α] : DecidableEq (Except ε α)
   | .ok a, .ok b => if h : a = b then isTrue (by rw [h]) else isFalse (fun e => h (by injection e))
